@@ -276,7 +276,11 @@ fmmu_next = Contract(
     FMMULock.get_next_addr,
     params=dict(self=T.Obj(FMMULock, base_addr=T.Int, g_mine=T.Int)),
     requires={"registered": _registered()},
-    raises=[Raises(RuntimeError, when="(self.base_addr + 4096) // 4194304 != self.g_mine")],
+    # the refusal leaves the object registered where it was: remove() later
+    # clears the bit of base_addr's window, which must still be this process's
+    raises=[Raises(RuntimeError, when="(self.base_addr + 4096) // 4194304 != self.g_mine",
+                   ensures={"still_registered_after_the_refusal":
+                            "self.base_addr // 4194304 == self.g_mine and self.base_addr % 4096 == 0"})],
     ensures={
         "stays_in_the_window_of_this_process":
             "window(self.g_mine)[0] <= result and result + 4096 <= window(self.g_mine)[1]",
